@@ -139,6 +139,7 @@ type Task struct {
 	exiting bool
 	epoch   int      // fair continuation: the quiet period (Sim.epoch) in which base was taken
 	base    int      // Steps at the first step the task took in that quiet period
+	yields  int      // Gosched / yield operations since then
 	watch   bool     // WatchEpilogue: record the kinds of the operations from now on
 	after   []OpKind // the operation the task was at when the watch began, and those after it
 	prio    int
@@ -679,7 +680,9 @@ func (s *Sim) park(kind OpKind, obj uintptr, mu *MutexModel, rw *RWModel, wg *WG
 		t.after = AppendNR(t.after, kind)
 	}
 	switch kind {
-	case OpAtomic, OpGosched, OpYield, OpQuiesce, OpChan, OpSelect:
+	case OpGosched, OpYield, OpQuiesce:
+		t.yields++ // the mark of a loop that waits for somebody else
+	case OpAtomic, OpChan, OpSelect:
 		// what a goroutine does while it spins; a channel operation or select
 		// that gets through counts itself (chan.go)
 	default:
@@ -1155,6 +1158,7 @@ func (s *Sim) Run(main func()) {
 			s.fair = true
 			s.Stats.Truncated = true
 			s.fairStep0, s.progStep, s.workStep, s.progVal, s.workVal = s.step, s.step, s.step, s.progress(), s.work
+			s.epoch++ // every task's count of own steps starts afresh
 		}
 		if s.fair && s.fairVerdict(len(s.elig) > 1) {
 			break
@@ -1222,7 +1226,18 @@ func (s *Sim) fairVerdict(decision bool) bool {
 	// a whole step budget of steps of its own, all of them of the spinning kind
 	spinning := len(s.elig) > 0
 	for _, t := range s.elig {
-		if t.epoch != s.epoch || t.Steps-t.base < m {
+		// A loop that yields the processor between its looks (Gosched, the
+		// harness's yield) is a loop that waits: one step budget of it is enough.
+		// A stretch of nothing but atomic operations may also be work - the
+		// batching goroutine writing a 64 000-byte packet a few bytes at a time
+		// looks at the transport's closed flag before every write, on every
+		// destination, and does nothing else the scheduler can see - so that needs
+		// far more before it counts as spinning.
+		own, need := t.Steps-t.base, m
+		if t.yields*16 < own {
+			need = 400000
+		}
+		if t.epoch != s.epoch || own < need {
 			spinning = false
 			break
 		}
@@ -1373,7 +1388,7 @@ func (s *Sim) runStep(t *Task) {
 	s.step++
 	StepsTotal.Add(1)
 	if t.epoch != s.epoch {
-		t.epoch, t.base = s.epoch, t.Steps
+		t.epoch, t.base, t.yields = s.epoch, t.Steps, 0
 	}
 	s.Stats.Steps++
 	t.Steps++
